@@ -128,6 +128,12 @@ type pinterp struct {
 	oldPrim, newPrim string
 	// the type shape under evaluation (rule J1)
 	shape *tshape
+	// operand kinds of a binary expression being typed (rule X12): values of dsl.PrimitiveKind constant names, "" = not
+	// a primitive; commonErr: GetCommonType fails
+	typing    bool
+	lKind     string
+	rKind     string
+	commonErr bool
 }
 
 func (pi *pinterp) fail(what string) {
@@ -320,6 +326,12 @@ func (pi *pinterp) eval(info *types.Info, e ast.Expr, env *penv) pval {
 			abs, other := l, x.Y
 			if isNil(x.X) {
 				abs, other = r, x.X
+			}
+			if abs.k == pvAbs && isNil(other) && (abs.s == "nil" || abs.s == "nonnil") {
+				return pval{k: pvBool, b: (abs.s == "nil") == (x.Op == token.EQL)}
+			}
+			if abs.k == pvType && isNil(other) && pi.typing {
+				return pval{k: pvBool, b: x.Op == token.NEQ} // the operands are resolved
 			}
 			if abs.k == pvAbs && isNil(other) && pi.shape != nil {
 				null := abs.s == "nil" || (abs.s == "type" && pi.shape.null)
@@ -787,7 +799,7 @@ func (pi *pinterp) call(info *types.Info, ce *ast.CallExpr, env *penv) []pval {
 			}
 			pi.events = append(pi.events, "emit:"+txt)
 			return nil
-		case f.Name() == "GetKindIfPrimitive" && f.Pkg() != nil && strings.HasSuffix(f.Pkg().Path(), "/pkg/dsl") && len(ce.Args) == 1:
+		case !pi.typing && f.Name() == "GetKindIfPrimitive" && f.Pkg() != nil && strings.HasSuffix(f.Pkg().Path(), "/pkg/dsl") && len(ce.Args) == 1:
 			if v := pi.eval(info, ce.Args[0], env); v.k == pvType {
 				name := "PrimitiveKindFloatingPoint"
 				if v.s == "int" {
@@ -813,6 +825,52 @@ func (pi *pinterp) call(info *types.Info, ce *ast.CallExpr, env *penv) []pval {
 			}
 			pi.events = append(pi.events, "emit:"+txt)
 			return nil
+		case pi.typing && f.Name() == "GetResolvedType" && len(ce.Args) == 0:
+			if se, ok := ast.Unparen(ce.Fun).(*ast.SelectorExpr); ok {
+				if recv := pi.eval(info, se.X, env); recv.k == pvNode && (recv.s == "left" || recv.s == "right") {
+					return []pval{{k: pvType, s: recv.s}}
+				}
+			}
+			return []pval{{}}
+		case pi.typing && f.Name() == "DefaultRewrite" && len(ce.Args) >= 1:
+			return []pval{pi.eval(info, ce.Args[0], env)}
+		case pi.typing && (f.Name() == "shallowClone" || f.Name() == "insertConversion") && len(ce.Args) >= 1:
+			return []pval{pi.eval(info, ce.Args[0], env)}
+		case pi.typing && f.Name() == "GetCommonType" && len(ce.Args) == 2:
+			if pi.commonErr {
+				return []pval{{}, {k: pvAbs, s: "nonnil"}}
+			}
+			return []pval{{k: pvType, s: "common"}, {k: pvAbs, s: "nil"}}
+		case pi.typing && f.Name() == "GetPrimitiveType" && len(ce.Args) == 1:
+			return []pval{{k: pvString, s: "<some primitive>"}, {k: pvBool, b: true}}
+		case pi.typing && f.Name() == "Add" && strings.Contains(full, "ErrorSink"):
+			pi.events = append(pi.events, "error")
+			return nil
+		case pi.typing && f.Name() == "GetKindIfPrimitive" && len(ce.Args) == 1:
+			v := pi.eval(info, ce.Args[0], env)
+			kind := ""
+			switch {
+			case v.k == pvType && v.s == "left":
+				kind = pi.lKind
+			case v.k == pvType && v.s == "right":
+				kind = pi.rKind
+			case v.k == pvType && v.s == "common":
+				kind = pi.lKind // the common type of two operands of one kind has that kind
+			default:
+				return []pval{{}, {}}
+			}
+			if kind == "" {
+				if k, ok := f.Pkg().Scope().Lookup("PrimitiveKindNotPrimitive").(*types.Const); ok {
+					n, _ := constant.Int64Val(k.Val())
+					return []pval{{k: pvInt, n: n}, {k: pvBool, b: false}}
+				}
+				return []pval{{}, {k: pvBool, b: false}}
+			}
+			if k, ok := f.Pkg().Scope().Lookup(kind).(*types.Const); ok && k.Val().Kind() == constant.Int {
+				n, _ := constant.Int64Val(k.Val())
+				return []pval{{k: pvInt, n: n}, {k: pvBool, b: true}}
+			}
+			return []pval{{}, {}}
 		case pi.shape != nil && f.Name() == "ToGeneralizedType" && len(ce.Args) == 1:
 			if v := pi.eval(info, ce.Args[0], env); v.k == pvAbs && (v.s == "type" || v.s == "gt") {
 				return []pval{{k: pvAbs, s: "gt"}}
@@ -1014,6 +1072,15 @@ func (pi *pinterp) exec(info *types.Info, list []ast.Stmt, env *penv) pctl {
 						pi.bind(info, l, v, env, s.Tok)
 					}
 					continue
+				}
+			}
+			if pi.typing {
+				for _, l := range s.Lhs {
+					if se, ok := ast.Unparen(l).(*ast.SelectorExpr); ok && se.Sel.Name == "ResolvedType" {
+						if base := pi.eval(info, se.X, env); base.k == pvNode && base.s == "parent" {
+							pi.events = append(pi.events, "typed")
+						}
+					}
 				}
 			}
 			if len(s.Lhs) == len(s.Rhs) {
